@@ -4,7 +4,7 @@ import json
 META = {
     "level": "exploration",
     "technique": "TLA+ relation RelDialRank (permutation, documented group order, last group last by delay, QUIC no later than TCP per group) evaluated by TLC on every output of the real rank_dials over an exhaustively enumerated abstract alphabet of address shapes",
-    "text": "Alphabet of 20 address shapes (private/public/loopback IPv4, private/public IPv6, localhost and non-localhost DNS names, x QUIC-v1/QUIC/TCP/WebRTC-direct/no transport, relay circuits); every sequence of length <= 2 and every multiset (both orders) of size 3 (thorough: 4) is concretised with unique ports, ranked by the real function through the verif hook, and TLC evaluates the relation on each (input, output) record. The group of a shape is assigned from the documented rules, not from the code.",
+    "text": "Alphabet of 20 address shapes (private/public/loopback IPv4, private/public IPv6, localhost and non-localhost DNS names, x QUIC-v1/QUIC/TCP/WebRTC-direct/no transport, relay circuits); every sequence of length <= 2 and every multiset (both orders) of size 3 (thorough: 4) is concretised with unique ports, ranked by the real function through the verif hook, and TLC evaluates the relation on each (input, output) record. In addition every multiset (both orders) of size 5-6 (thorough: 7) over a reduced 9-shape alphabet (public QUIC/TCP v4/v6, public WebRTC-direct, private TCP, relayed TCP/QUIC, DNS-only) is ranked: long public schedules in front of relay and no-IP addresses. The group of a shape is assigned from the documented rules, not from the code.",
     "note": "Addresses with neither IP nor DNS component (e.g. /memory/1) are outside the alphabet; delays are compared only where the statement speaks about them.",
     "design_ref": "6/C09",
 }
@@ -13,7 +13,7 @@ META = {
 def run(c):
     drv = c.build("drv-swarmfn")
     recs = c.rundir / "rank.ndjson"
-    c.drive(drv, ["rank", c.pick(3, 4), recs], timeout=3000)
+    c.drive(drv, ["rank", c.pick(3, 4), recs, "deep=%d" % c.pick(6, 7)], timeout=3000)
     n, bad = c.tlc_relation("RelDialRank", recs, timeout=3000)
     nt = 0
     for line in open(recs):
@@ -25,5 +25,5 @@ def run(c):
     c.evaluations = n
     c.distinct_nontrivial = nt
     return c.finish("exploration", exhaustive=True,
-                    rule="all sequences of length 1-2 and all multisets (in both orders) of size 3 (4 thorough) over 20 abstract address shapes; records distinct by construction; non-trivial = the input mixes at least two groups or two transports",
+                    rule="all sequences of length 1-2 and all multisets (in both orders) of size 3 (4 thorough) over 20 abstract address shapes, plus all multisets of size 5-6 (7 thorough) over 9 shapes; records distinct by construction; non-trivial = the input mixes at least two groups or two transports",
                     assumptions=["abstract alphabet of address shapes; one representative IP per class"])
